@@ -22,12 +22,14 @@ impl vstd::std_specs::convert::FromSpecImpl<StoreError> for PrunerError {
     open spec fn from_spec(e: StoreError) -> PrunerError { PrunerError::Store(e) }
 }
 impl From<StoreError> for PrunerError { fn from(e: StoreError) -> PrunerError { PrunerError::Store(e) } }
+#[derive(Debug)]
 pub struct BlockstoreError {}
 impl vstd::std_specs::convert::FromSpecImpl<BlockstoreError> for PrunerError {
     open spec fn obeys_from_spec() -> bool { true }
     open spec fn from_spec(e: BlockstoreError) -> PrunerError { PrunerError::Blockstore }
 }
 impl From<BlockstoreError> for PrunerError { fn from(e: BlockstoreError) -> PrunerError { PrunerError::Blockstore } }
+#[derive(Debug)]
 pub struct DaserError {}
 impl vstd::std_specs::convert::FromSpecImpl<DaserError> for PrunerError {
     open spec fn obeys_from_spec() -> bool { true }
@@ -36,15 +38,32 @@ impl vstd::std_specs::convert::FromSpecImpl<DaserError> for PrunerError {
 impl From<DaserError> for PrunerError { fn from(e: DaserError) -> PrunerError { PrunerError::Daser } }
 type PResult<T, E = PrunerError> = std::result::Result<T, E>;
 
+// std specification not in vstd (A-std)
+pub assume_specification<T, F: FnOnce(T) -> bool> [Option::<T>::is_none_or] (o: Option<T>, f: F) -> (r: bool)
+    requires o.is_some() ==> f.requires((o.unwrap(),))
+    ensures o.is_none() ==> r, o.is_some() ==> f.ensures((o.unwrap(),), r);
+
 // header time (nanoseconds) of the unique (C21) header of the chain at a height; also defined for pruned heights
 pub uninterp spec fn time_of(h: int) -> int;
 
 // tendermint::Time: a totally ordered instant; `a < b` is PartialOrd::lt (E9-op)
 #[derive(Clone, Copy, Debug)]
 pub struct Time { pub t: u64 }
-impl Time {
-    #[verifier::external_body]
-    pub fn lt(&self, o: &Time) -> (b: bool) ensures b == (self.t < o.t) { unimplemented!() }
+impl PartialEq for Time { fn eq(&self, o: &Time) -> (b: bool) ensures b == (self.t == o.t) { self.t == o.t } }
+impl vstd::std_specs::cmp::PartialEqSpecImpl for Time {
+    open spec fn obeys_eq_spec() -> bool { true }
+    open spec fn eq_spec(&self, o: &Time) -> bool { self.t == o.t }
+}
+impl vstd::std_specs::cmp::PartialOrdSpecImpl for Time {
+    open spec fn obeys_partial_cmp_spec() -> bool { true }
+    open spec fn partial_cmp_spec(&self, o: &Time) -> Option<std::cmp::Ordering> {
+        if self.t < o.t { Some(std::cmp::Ordering::Less) } else if self.t == o.t { Some(std::cmp::Ordering::Equal) } else { Some(std::cmp::Ordering::Greater) }
+    }
+}
+impl PartialOrd for Time {
+    fn partial_cmp(&self, o: &Time) -> (r: Option<std::cmp::Ordering>) {
+        if self.t < o.t { Some(std::cmp::Ordering::Less) } else if self.t == o.t { Some(std::cmp::Ordering::Equal) } else { Some(std::cmp::Ordering::Greater) }
+    }
 }
 pub struct ExtendedHeader { pub h: u64, pub t: Time }
 impl ExtendedHeader {
@@ -163,6 +182,142 @@ pub proof fn lemma_search_step(stored: ISet<int>, r0: ISet<int>, l: ISet<int>, m
     }
 }
 
+
+// ---- C35 stubs ----
+pub struct Duration { pub d: u64 }
+impl Clone for Duration { #[verifier::external_body] fn clone(&self) -> (r: Duration) ensures r == *self { unimplemented!() } }
+impl Copy for Duration {}
+impl Duration {
+    #[verifier::external_body]
+    pub fn from_secs(s: u64) -> Duration { unimplemented!() }
+    #[verifier::external_body]
+    pub fn min(self, o: Duration) -> Duration { unimplemented!() }
+}
+impl Instant {
+    #[verifier::external_body]
+    pub fn now() -> Instant { unimplemented!() }
+}
+// `updated_at.is_some_and(|t| t.elapsed() < update_after)`: reading the monotonic clock; any answer is possible (A-clock)
+#[verifier::external_body]
+pub fn vx_recently_updated(updated_at: &Option<Instant>, update_after: Duration) -> bool { unimplemented!() }
+// Option<u64>'s derived PartialOrd: None < Some(_), Some(a) < Some(b) iff a < b (E9-op)
+pub fn vx_opt_lt(a: Option<u64>, b: Option<u64>) -> (r: bool)
+    ensures r == (match (a, b) { (None, Some(_)) => true, (Some(x), Some(y)) => x < y, _ => false })
+{
+    match (a, b) { (None, Some(_)) => true, (Some(x), Some(y)) => x < y, _ => false }
+}
+// what the daser answers to WantToPrune(h) (its truth is the daser's: sampling of h is not in progress); a fixed oracle
+// during one call (A-await)
+pub uninterp spec fn daser_grants(h: int) -> bool;
+pub struct Daser {}
+impl Daser {
+    #[verifier::external_body]
+    pub async fn update_highest_prunable_block(&self, h: u64) -> (r: Result<(), DaserError>) { unimplemented!() }
+    #[verifier::external_body]
+    pub async fn update_number_of_prunable_blocks(&self, n: u64) -> (r: Result<(), DaserError>) { unimplemented!() }
+    #[verifier::external_body]
+    pub async fn want_to_prune(&self, h: u64) -> (r: Result<bool, DaserError>)
+        ensures r.is_ok() ==> r.unwrap() == daser_grants(h as int) { unimplemented!() }
+}
+impl Store {
+    #[verifier::external_body]
+    pub async fn get_stored_header_ranges(&self) -> (r: Result<BlockRanges, StoreError>)
+        ensures r.is_ok() ==> r.unwrap()@ == self.stored@ && r.unwrap().wf() { unimplemented!() }
+    #[verifier::external_body]
+    pub async fn get_pruned_ranges(&self) -> (r: Result<BlockRanges, StoreError>)
+        ensures r.is_ok() ==> r.unwrap()@ == self.pruned@ && r.unwrap().wf() { unimplemented!() }
+    #[verifier::external_body]
+    pub async fn get_sampled_ranges(&self) -> (r: Result<BlockRanges, StoreError>)
+        ensures r.is_ok() ==> r.unwrap()@ == self.sampled@ && r.unwrap().wf() { unimplemented!() }
+}
+impl Cache {
+    // A-gc: garbage_collect only drops entries of `block_info` (HashMap::retain)
+    #[verifier::external_body]
+    pub fn garbage_collect(&mut self)
+        ensures
+            cache_ok(*old(self)) ==> cache_ok(*final(self)),
+            final(self).after_pruning_window == old(self).after_pruning_window,
+            final(self).after_sampling_window == old(self).after_sampling_window,
+            final(self).keep_block_info == old(self).keep_block_info,
+    { unimplemented!() }
+}
+pub struct CancellationToken {}
+pub struct EventPublisher {}
+pub struct Blockstore {}
+pub struct Worker {
+    pub daser: Daser,
+    pub cancellation_token: CancellationToken,
+    pub event_pub: EventPublisher,
+    pub store: Store,
+    pub blockstore: Blockstore,
+    pub block_time: Duration,
+    pub pruning_window: Duration,
+    pub sampling_window: Duration,
+    pub prev_num_of_prunable_blocks: u64,
+    pub cache: Cache,
+}
+
+//@const MAX_PRUNABLE_BATCH_SIZE
+
+// chain times strictly increase with height (tendermint BFT time; `verify` rejects a successor whose time is not later)
+pub open spec fn mono_all() -> bool { forall|a: int, b: int| 1 <= a < b ==> time_of(a) < time_of(b) }
+// the cached window edges are heights already outside the respective window
+pub open spec fn edges_ok(c: Cache, sampling_cutoff: int, pruning_cutoff: int) -> bool {
+    &&& c.after_sampling_window.is_some() ==> c.after_sampling_window.unwrap() >= 1 && time_of(c.after_sampling_window.unwrap() as int) <= sampling_cutoff
+    &&& c.after_pruning_window.is_some() ==> c.after_pruning_window.unwrap() >= 1 && time_of(c.after_pruning_window.unwrap() as int) <= pruning_cutoff
+}
+// h borders an unsynced gap
+pub open spec fn borders_gap(synced: ISet<int>, h: int) -> bool { synced.contains(h) && (!synced.contains(h - 1) || !synced.contains(h + 1)) }
+// C35: what may be in a prunable batch
+pub open spec fn prunable(st: Store, sampling_cutoff: int, pruning_cutoff: int, h: int) -> bool {
+    &&& st.stored@.contains(h)
+    // never inside the pruning window
+    &&& time_of(h) <= pruning_cutoff
+    // inside the sampling window: only if sampled and not bordering an unsynced gap
+    &&& (time_of(h) > sampling_cutoff ==> st.sampled@.contains(h) && !borders_gap(st.pruned@.union(st.stored@), h))
+    // outside both windows: sampled, or the daser confirmed that no sampling of it is in progress
+    &&& (st.sampled@.contains(h) || daser_grants(h))
+}
+pub proof fn lemma_mono_all_on(s: ISet<int>)
+    requires mono_all(), forall|h: int| s.contains(h) ==> h >= 1
+    ensures mono_on(s)
+{}
+// for a wf range sequence, "start or end of a range" is "borders a gap"
+pub proof fn lemma_edge_set(s: Seq<BlockRange>, h: int)
+    requires wf_seq(s)
+    ensures edge_has(s, h) == (seq_has(s, h) && (!seq_has(s, h - 1) || !seq_has(s, h + 1)))
+{
+    if edge_has(s, h) {
+        let k = choose|k: int| 0 <= k < s.len() && ((#[trigger] s[k])@.start == h || s[k]@.end == h);
+        assert(r_valid(s[k]));
+        assert(r_has(s[k], h));
+        if s[k]@.start == h && seq_has(s, h - 1) {
+            let j = choose|j: int| 0 <= j < s.len() && r_has(#[trigger] s[j], h - 1);
+            if j < k { assert(s[j]@.end + 1 < s[k]@.start); } else if j > k { assert(s[k]@.end + 1 < s[j]@.start); }
+            assert(s[k]@.end == h);
+            if seq_has(s, h + 1) {
+                let j2 = choose|j2: int| 0 <= j2 < s.len() && r_has(#[trigger] s[j2], h + 1);
+                if j2 < k { assert(s[j2]@.end + 1 < s[k]@.start); } else if j2 > k { assert(s[k]@.end + 1 < s[j2]@.start); }
+            }
+        }
+        if s[k]@.end == h && seq_has(s, h + 1) {
+            let j = choose|j: int| 0 <= j < s.len() && r_has(#[trigger] s[j], h + 1);
+            if j < k { assert(s[j]@.end + 1 < s[k]@.start); } else if j > k { assert(s[k]@.end + 1 < s[j]@.start); }
+            assert(s[k]@.start == h);
+            if seq_has(s, h - 1) {
+                let j2 = choose|j2: int| 0 <= j2 < s.len() && r_has(#[trigger] s[j2], h - 1);
+                if j2 < k { assert(s[j2]@.end + 1 < s[k]@.start); } else if j2 > k { assert(s[k]@.end + 1 < s[j2]@.start); }
+            }
+        }
+    }
+    if seq_has(s, h) && (!seq_has(s, h - 1) || !seq_has(s, h + 1)) {
+        let k = choose|k: int| 0 <= k < s.len() && r_has(#[trigger] s[k], h);
+        if s[k]@.start != h && s[k]@.end != h {
+            assert(r_has(s[k], h - 1) && r_has(s[k], h + 1));
+        }
+    }
+}
+
 impl Cache {
 //@fn impl Cache :: get_block_info
 //@props C36
@@ -222,7 +377,6 @@ async fn find_height_after_window_fast(
         final(cache).after_pruning_window == old(cache).after_pruning_window,
         final(cache).after_sampling_window == old(cache).after_sampling_window,
         (r.is_ok() && r.unwrap().is_some()) ==> window_ans(store.stored@, cutoff.t as int, r.unwrap().unwrap()),
-//@sub E9-op "*cutoff < block_info.time" all => "cutoff.lt(&block_info.time)"
 //@hint entry
     proof { lemma_mono_sub(store.stored@, prev_after_window); }
 //@end
@@ -244,8 +398,8 @@ async fn find_height_after_window_slow(
         final(cache).after_sampling_window == old(cache).after_sampling_window,
         r.is_ok() ==> window_ans(store.stored@, cutoff.t as int, r.unwrap()),
 //@sub E9 "stored_headers.to_owned()" => "stored_headers.clone()"
-//@sub E9-op "middle.time < *cutoff" => "middle.time.lt(cutoff)"
-//@sub E8 "highest .as_ref() .is_none_or(|highest| highest.time < middle.time)" => "(match &highest { None => true, Some(highest) => highest.time.lt(&middle.time) })"
+
+//@closure "|highest|" => "|highest: &BlockInfo| -> (b: bool) ensures (highest.time.t < middle.time.t) ==> b"
 //@sub E9 "highest.map(|block_info| block_info.height)" => "(match highest { Some(block_info) => Some(block_info.height), None => None })"
 //@hint before "while let Some((left, middle, right)) = ranges.partitions() {"
     proof { lemma_seq_len_card(ranges.0@); }
@@ -265,6 +419,166 @@ async fn find_height_after_window_slow(
 //@hint after "ranges = left;"
             proof { lemma_search_step(store.stored@, r0, left@, m0, right@, cutoff.t as int, h0, highest, false); }
 //@end
+
+// ---- removal loop of Worker::run (C35, second half) ----
+#[derive(PartialEq, Eq, Clone, Copy, Structural)]
+pub struct Cid { pub v: u64 }
+pub struct SamplingMetadata { pub cids: Vec<Cid> }
+// the CIDs recorded in the sampling metadata of a height
+pub uninterp spec fn meta_cids(h: int) -> Seq<Cid>;
+// ghost log of what the pruner removed so far (E13: threaded through the stubs of the two removal calls)
+pub struct RmLog { pub cids: ISet<Cid>, pub heights: ISet<int> }
+impl Store {
+    #[verifier::external_body]
+    pub async fn get_sampling_metadata(&self, h: u64) -> (r: Result<Option<SamplingMetadata>, StoreError>)
+        ensures r.is_ok() ==> (match r.unwrap() { Some(m) => m.cids@ == meta_cids(h as int), None => meta_cids(h as int).len() == 0 })
+    { unimplemented!() }
+    // C35: a header is removed only after every CID of its sampling metadata was removed from the blockstore
+    #[verifier::external_body]
+    pub async fn remove_height(&self, h: u64, log: &mut Ghost<RmLog>) -> (r: Result<(), StoreError>)
+        requires forall|i: int| 0 <= i < meta_cids(h as int).len() ==> old(log)@.cids.contains(#[trigger] meta_cids(h as int)[i])
+        ensures final(log)@.cids == old(log)@.cids, final(log)@.heights == old(log)@.heights.insert(h as int)
+    { unimplemented!() }
+}
+impl Blockstore {
+    #[verifier::external_body]
+    pub async fn remove(&self, c: &Cid, log: &mut Ghost<RmLog>) -> (r: Result<(), BlockstoreError>)
+        ensures r.is_ok() ==> final(log)@.cids == old(log)@.cids.insert(*c), r.is_err() ==> final(log)@.cids == old(log)@.cids,
+            final(log)@.heights == old(log)@.heights
+    { unimplemented!() }
+}
+impl CancellationToken {
+    #[verifier::external_body]
+    pub fn is_cancelled(&self) -> bool { unimplemented!() }
+}
+pub enum NodeEvent { PrunedHeaders { from_height: u64, to_height: u64 } }
+impl EventPublisher {
+    #[verifier::external_body]
+    pub fn send(&self, ev: NodeEvent) { unimplemented!() }
+}
+
+impl Worker {
+//@fn impl<S, B> Worker<S, B> :: update_cached_data
+//@props C35
+    async fn update_cached_data(
+        &mut self,
+        stored_blocks: &BlockRanges,
+        sampling_cutoff: &Time,
+        pruning_cutoff: &Time,
+    ) -> (r: PResult<()>)
+        requires
+            stored_blocks.wf(), stored_blocks@ == old(self).store.stored@, cache_ok(old(self).cache), mono_all(),
+            edges_ok(old(self).cache, sampling_cutoff.t as int, pruning_cutoff.t as int),
+        ensures
+            final(self).store == old(self).store, final(self).prev_num_of_prunable_blocks == old(self).prev_num_of_prunable_blocks,
+            cache_ok(final(self).cache),
+            edges_ok(final(self).cache, sampling_cutoff.t as int, pruning_cutoff.t as int),
+//@sub E8 "self .cache .updated_at .is_some_and(|updated_at| updated_at.elapsed() < update_after)" => "vx_recently_updated(&self.cache.updated_at, update_after)"
+//@sub E9 "&*self.store" all => "&self.store"
+//@sub E8 "self .cache .after_sampling_window .and_then(|height| stored_blocks.right_of(height))" => "(match self.cache.after_sampling_window { Some(height) => stored_blocks.right_of(height), None => None })"
+//@sub E8 "self .cache .after_pruning_window .and_then(|height| stored_blocks.right_of(height))" => "(match self.cache.after_pruning_window { Some(height) => stored_blocks.right_of(height), None => None })"
+//@hint entry
+        proof {
+            broadcast use vstd::iset::group_iset_lemmas;
+            assert forall|h: int| stored_blocks@.contains(h) implies h >= 1 by { lemma_view_bounds(stored_blocks.0@); }
+            if self.cache.after_sampling_window.is_some() { lemma_mono_all_on(self.store.stored@.insert(self.cache.after_sampling_window.unwrap() as int)); }
+            if self.cache.after_pruning_window.is_some() { lemma_mono_all_on(self.store.stored@.insert(self.cache.after_pruning_window.unwrap() as int)); }
+            lemma_mono_all_on(self.store.stored@);
+        }
+//@end
+
+//@fn impl<S, B> Worker<S, B> :: get_next_prunable_batch
+//@props C35
+    async fn get_next_prunable_batch(
+        &mut self,
+        sampling_cutoff: Time,
+        pruning_cutoff: Time,
+    ) -> (r: PResult<BlockRanges>)
+        requires
+            cache_ok(old(self).cache), mono_all(),
+            edges_ok(old(self).cache, sampling_cutoff.t as int, pruning_cutoff.t as int),
+        ensures
+            final(self).store == old(self).store,
+            cache_ok(final(self).cache),
+            edges_ok(final(self).cache, sampling_cutoff.t as int, pruning_cutoff.t as int),
+            r.is_ok() ==> {
+                let batch = r.unwrap();
+                &&& batch.wf()
+                &&& forall|h: int| batch@.contains(h) ==> prunable(old(self).store, sampling_cutoff.t as int, pruning_cutoff.t as int, h)
+                &&& batch@.finite() && batch@.len() <= MAX_PRUNABLE_BATCH_SIZE
+            },
+//@sub E8 "self .cache .after_sampling_window .map(|height| BlockRanges::try_from(1..=height).expect(\"never fails\")) .unwrap_or_default()" => "(match self.cache.after_sampling_window { Some(height) => BlockRanges::try_from__range(1..=height).unwrap(), None => BlockRanges::new() })"
+//@sub E8 "self .cache .after_pruning_window .map(|height| BlockRanges::try_from(1..=height).expect(\"never fails\")) .unwrap_or_default()" => "(match self.cache.after_pruning_window { Some(height) => BlockRanges::try_from__range(1..=height).unwrap(), None => BlockRanges::new() })"
+//@binops
+//@refarg insert_relaxed
+//@hint after "let sampled_ranges = self.store.get_sampled_ranges().await?;"
+        let ghost sc = sampling_cutoff.t as int; let ghost pc = pruning_cutoff.t as int; let ghost st = self.store;
+//@hint before "let num_of_prunable_blocks = after_sampling_window.len() + prunable_and_sampled.len();"
+        proof {
+            broadcast use vstd::iset::group_iset_lemmas;
+            lemma_view_bounds(stored_ranges.0@);
+            lemma_seq_len_card(prune_candidates.0@); lemma_seq_len_bound(prune_candidates.0@);
+            lemma_seq_len_card(after_sampling_window.0@); lemma_seq_len_card(prunable_and_sampled.0@);
+            assert(after_sampling_window@.disjoint(prunable_and_sampled@));
+            lemma_disj_union_len(after_sampling_window@, prunable_and_sampled@);
+            vstd::iset_lib::lemma_len_subset(after_sampling_window@.union(prunable_and_sampled@), prune_candidates@);
+            assert forall|h: int| prunable_and_sampled@.contains(h) implies prunable(st, sc, pc, h) by {
+                lemma_edge_set(synced_ranges.0@, h);
+                assert(seq_has(synced_ranges.0@, h) == synced_ranges@.contains(h));
+                assert(seq_has(synced_ranges.0@, h - 1) == synced_ranges@.contains(h - 1));
+                assert(seq_has(synced_ranges.0@, h + 1) == synced_ranges@.contains(h + 1));
+            }
+            assert forall|h: int| after_sampling_window@.contains(h) implies st.stored@.contains(h) && time_of(h) <= pc && time_of(h) <= sc by {}
+        }
+//@hint before "for height in after_sampling_window.rev() {"
+        proof { lemma_seq_len_card(after_sampling_window.0@); lemma_seq_len_card(prunable_batch.0@); }
+//@for 1 iter pop_head
+//@loop 1
+            invariant
+                __i1_it.wf(), __i1_it@.finite(), prunable_batch.wf(), sampled_ranges.wf(), sampled_ranges@ == st.sampled@,
+                prunable_batch@.finite(), prunable_batch@.len() <= MAX_PRUNABLE_BATCH_SIZE,
+                forall|h: int| __i1_it@.contains(h) ==> st.stored@.contains(h) && time_of(h) <= pc && time_of(h) <= sc,
+                forall|h: int| prunable_batch@.contains(h) ==> prunable(st, sc, pc, h),
+                self.store == st, st == old(self).store, sc == sampling_cutoff.t as int, pc == pruning_cutoff.t as int, cache_ok(self.cache), edges_ok(self.cache, sc, pc),
+            decreases __i1_it@.len()
+//@loopstart 1
+            let ghost b0 = prunable_batch@;
+//@hint after ".expect(\"never fails\");" last
+                proof {
+                    broadcast use vstd::iset::group_iset_lemmas;
+                    assert(prunable_batch@ =~= b0.insert(height as int));
+                    lemma_seq_len_card(prunable_batch.0@);
+                }
+//@end
+
+//@fn impl<S, B> Worker<S, B> :: run
+//@props C35
+//@block "for range in prunable_batch.into_inner() {"
+    async fn run__prune_range(&mut self, range: BlockRange, log: &mut Ghost<RmLog>) -> (r: PResult<()>)
+        requires !range@.exhausted
+        ensures
+            // only heights of the batch are removed
+            forall|h: int| final(log)@.heights.contains(h) ==> old(log)@.heights.contains(h) || r_has(range, h),
+//@sub E8 "self .store .get_sampling_metadata(height) .await? .map(|m| m.cids) .unwrap_or_default()" => "(match self.store.get_sampling_metadata(height).await? { Some(m) => m.cids, None => Vec::new() })"
+//@sub E13 "self.blockstore.remove(&cid)" => "self.blockstore.remove(&cid, log)"
+//@sub E13 "self.store.remove_height(height)" => "self.store.remove_height(height, log)"
+//@for 1 rangeinc
+//@loop 1
+                invariant
+                    __i1_end == range@.end, __i1 >= range@.start, !__i1_done ==> __i1 <= __i1_end,
+                    forall|h: int| log@.heights.contains(h) ==> old(log)@.heights.contains(h) || r_has(range, h),
+                decreases (if __i1_done { 0 } else { __i1_end - __i1 + 1 })
+//@for 2 copy
+//@loop 2
+                    invariant
+                        __i2 <= cids@.len(),
+                        forall|i: int| 0 <= i < __i2 ==> log@.cids.contains(#[trigger] cids@[i]),
+                        forall|h: int| log@.heights.contains(h) ==> old(log)@.heights.contains(h) || r_has(range, h),
+                    decreases cids@.len() - __i2
+//@hint exit
+        Ok(())
+//@end
+}
 
 } // verus!
 fn main() {}
